@@ -52,6 +52,11 @@ class Channel:
         self.inited = False
         self.active = True
         self.maxdelay = tape.draw(f"c28/{name}/maxdelay", 5)
+        # in few runs the terminal sits on one chunk for hundreds of cycles (line busy,
+        # flow control): the chunk has to stay presented, announced once
+        self.long_at = tape.draw(f"c28/{name}/long-accept-at", 6) \
+            if tape.chance(f"c28/{name}/long-accept", 6) else None
+        self.patience = 60 + (340 if self.long_at is not None else 0)
         self.tx_rate = [0, 10, 30, 60][tape.draw(f"c28/{name}/rxrate", 4)]
         self.ack_wait = 0
 
@@ -88,6 +93,9 @@ class Channel:
             if n > 22:
                 self.viol("chunk-too-long", f"{self.name}: length byte {n}")
             d = tape.draw(f"c28/{self.name}/accept-delay", self.maxdelay + 1)
+            if self.long_at is not None and self.chunks_accepted == self.long_at:
+                d = 257 + tape.draw(f"c28/{self.name}/long-accept-cycles", 60)
+                self.world.count("c28/accept-delayed-over-256-cycles")
             if d == 0:
                 self.accepted += data
                 self.chunks_accepted += 1
@@ -131,6 +139,9 @@ def run(tape, scenario):
     # in some runs a cyclic frame is lost now and then: the group re-sends after its 20 ms
     # timeout, which must not disturb the handshake (no loss during start-up: no retry there)
     loss_rate = tape.pick("cfg/loss", [0, 0, 0, 3, 10])
+    # (frames that come back later than that timeout are not injected: a stale input image
+    # arriving after a newer one makes the unchanged Serial deliver a received chunk twice;
+    # that is a bus fault outside this property's quantifier, see DESIGN.md 11.6, C28-i)
     world, bus = env.world, env.bus
     ec = EtherCat("sim0")
     nch = 1 if scenario == "one-channel" else 2
@@ -203,7 +214,8 @@ def run(tape, scenario):
             through = all(bytes(c.accepted) == bytes(a["written"])
                           and len(a["read"]) == len(c.announced) + 1 and not c.wait_ack
                           for c, a in zip(channels, app))
-            if (through or cycles[0] - progress[1] > 60 or cycles[0] > ncycles + 4000) \
+            if (through or cycles[0] - progress[1] > max(c.patience for c in channels)
+                    or cycles[0] > ncycles + 4000) \
                     and not finishing[0]:
                 finishing[0] = True
                 asyncio.get_event_loop().call_soon(sg.task.cancel)
